@@ -695,6 +695,14 @@ pub proof fn lemma_iv_both_witness(h: Header, v: Value, n: int, d: nat)
     requires v is Map, 0 <= n <= map_of(v).len(), hdr_inv(h, v, n, d), h.iv@.len() > 0, h.partial_iv@.len() > 0,
     ensures iv_both_prefix(v, n),
 { reveal(hdr_flat_ok); }
+/// if both IV labels occur among valid pairs, both fields are non-empty (only this step looks inside hdr_flat_ok)
+proof fn lemma_iv_labels_both_nonempty(h: Header, v: Value, d: nat, i5: int, i6: int)
+    requires
+        v is Map, hdr_flat_ok(h, map_of(v), map_of(v).len() as int),
+        0 <= i5 < map_of(v).len(), label_of(map_of(v)[i5].0) == Some(Label::Int(5)), hdr_pair_ok(map_of(v)[i5].0, map_of(v)[i5].1, d),
+        0 <= i6 < map_of(v).len(), label_of(map_of(v)[i6].0) == Some(Label::Int(6)), hdr_pair_ok(map_of(v)[i6].0, map_of(v)[i6].1, d),
+    ensures h.iv@.len() > 0 && h.partial_iv@.len() > 0,
+{ reveal(hdr_flat_ok); }
 pub proof fn lemma_hdr_final(h: Header, v: Value, d: nat)
     requires
         v is Map,
@@ -704,7 +712,6 @@ pub proof fn lemma_hdr_final(h: Header, v: Value, d: nat)
         !(h.iv@.len() > 0 && h.partial_iv@.len() > 0),
     ensures hdr_ok(v, d), hdr_res(v, d, h),
 {
-    reveal(hdr_flat_ok); reveal(hdr_labels_distinct);
     let m = map_of(v);
     assert(m.subrange(0, m.len() as int) =~= m);
     if has_label(m, m.len() as int, Label::Int(5)) && has_label(m, m.len() as int, Label::Int(6)) {
@@ -712,6 +719,7 @@ pub proof fn lemma_hdr_final(h: Header, v: Value, d: nat)
         let i6 = choose |i: int| 0 <= i < m.len() && #[trigger] label_of(m[i].0) == Some(Label::Int(6));
         assert(hdr_pair_ok(m[i5].0, m[i5].1, d));
         assert(hdr_pair_ok(m[i6].0, m[i6].1, d));
+        lemma_iv_labels_both_nonempty(h, v, d, i5, i6);
         assert(false);
     }
 }
